@@ -143,7 +143,9 @@ def check(ctx, rep):
     # ---------------------------------------------------------------- queue discipline, whole class
     allowed = {"append": "enqueue", "popleft": "dequeue", "remove": "cancel"}
     nq = 0
-    ai = prog.cls("AtomicInt")
+    ats = [ctx.types.cls_of(t) for c in tex.mro() if hasattr(c, "key") for t in ctx.types.field_types.get((c.key, cfield), ()) if t.startswith("C:")]
+    rep.require(len(ats) == 1 and ats[0] is not None, "throttle: class of the in-flight counter not identified")
+    ai = ats[0]
     inc_sites = {}
     dec_sites = {}
     for fi in sorted(prog.functions.values(), key=lambda f: f.key):
@@ -170,6 +172,24 @@ def check(ctx, rep):
                     if s.fn is fi and t[0] == "attr" and t[2] in queue_fields and it2.type_of(t[1], p) == "C:" + tex.key and fi.name != "__init__":
                         rep.ob("R-FIFO", "%s: queue rebound" % fi.qualname, False, "the queue is replaced wholesale", where_of(fi, s.node))
     rep.require(nq >= 3, "throttle queue operations not found")
+
+    # ---------------------------------------------------------------- counter updates are atomic
+    # incr and decr run on different threads (hand-over loop / delegate callbacks): each read-modify-write of the
+    # counter must hold the counter's own lock, or an update is lost and the bound is exceeded from then on
+    clocks = roles.lock_fields(ctx, ai)
+    rep.ob("R-COUNT", "the in-flight counter has its own lock", len(clocks) == 1, "lock fields of %s: %s" % (ai.name, clocks), where_of(ai.methods["__init__"]) if "__init__" in ai.methods else ai.module.relpath)
+    nrmw = 0
+    for m in sorted(ai.methods.values(), key=lambda f: f.key):
+        if m.name == "__init__":
+            continue
+        ps_, it_ = ctx.paths(m, ai, depth=0)
+        for p in ps_:
+            for s_ in p.evs("store"):
+                t = s_.d["target"]
+                if s_.d.get("aug") and t[0] == "attr" and t[2] == csub:
+                    nrmw += 1
+                    rep.ob("R-COUNT", "%s: counter update under the counter's lock" % m.qualname, any(l[1] == ("attr", t[1], lf) for l in s_.locks for lf in clocks), "`%s %s= ...` is a read-modify-write that runs concurrently with the opposite update on another thread; without the counter's lock one of them is lost" % (fmt(t), s_.d["aug"]), where_of(m, s_.node), trace_of(p, s_.seq))
+    rep.require(nrmw >= 2, "in-flight counter: increment / decrement operations not found")
 
     # ---------------------------------------------------------------- counter ownership
     loop_fns = set(e.fn.qualname for p in li.paths for e in p.events)
